@@ -19,13 +19,18 @@ C['C13']=dict(level='fault_enumeration',
   note='fault model: a failing read/write cuts the link in both directions; read/write deadlines on virtual time; fakews as for C12.',
   technique='fault enumeration x stateless schedule exploration of the implementation under a controlled scheduler',
   design_ref='4/C13')
+C['C07']=dict(level='exploration',
+  text='Bounded-exhaustive enumeration of all JSON documents with a top-level object up to 6 (quick) / 7 (thorough) nodes over a structural alphabet and up to 4 / 5 nodes over a 21-scalar alphabet that contains one representative per textual shortcut in the code (bracket sequences in strings and member names, escapes, empty containers, numbers beyond float64); each document is pushed through the real JsonIntoEEBUSJson / JsonFromEEBUSJson and compared with a reference transformer (shape), with itself after the round trip (member order, number literals, string contents) and after the data-envelope splice as the receiver parses it. Failures are classified by repair-and-recheck into structural cause classes.',
+  note='un-instrumented: built directly against /repo; small-scope hypothesis over the stated alphabet; duplicate member names and invalid UTF-8 excluded.',
+  technique='bounded-exhaustive input enumeration against a reference model (no sampling)',
+  design_ref='4/C07', engine='direct')
 na={}
 checks=[]
 for i in ids:
     if i in C:
         c=C[i]
         checks.append(dict(property_id=i, quick_cmd=f'./bin/vcheck {i} --tier quick', thorough_cmd=f'./bin/vcheck {i} --tier thorough',
-            evidence_file=f'/verif/evidence/{i}.json', replay_cmd_template=f'./bin/vcheck {i} --replay {{path}}', engine='simrt+vinstr',
+            evidence_file=f'/verif/evidence/{i}.json', replay_cmd_template=f'./bin/vcheck {i} --replay {{path}}', engine=c.get('engine','simrt+vinstr'),
             level_claimed=dict(category=c['level'], text=c['text'], design_ref='DESIGN.md section '+c['design_ref']),
             level_note=c['note'], technique=c['technique']))
     else:
